@@ -26,9 +26,13 @@ REACH = [("yamlpath/processor.py", "_get_nodes_by_path_segment,_get_nodes_by_key
          ("yamlpath/common/keywordsearches.py", "search_matches,has_child,max,min,parent,distinct,unique,name", "KeywordSearches"),
          ("yamlpath/common/searches.py", "search_matches", "Searches.search_matches")]
 SIZES = {"quick": 600000, "thorough": 6000000}
-REQUIRED_COUNTERS = ["returned", "yamlpath_error", "deep_sequence_docs", "optional_mode_queries"]
+REQUIRED_COUNTERS = ["returned", "yamlpath_error", "deep_sequence_docs", "optional_mode_queries", "docs_with_odd_keys", "docs_tagged_through_the_library"]
 
 BAD_REGEX = ["(", "[", "*a", "a{2", "(?P<x", "+"]
+ODD_KEY_DOCS = ["{'': 1, a: {'': {b: 2}}}", "!!set {'', a}", "{s: !!set {'', ' '}, t: 1}", "[{'': 1}, {'': 2}]", "{h: {'': {k: 1}, x: {k: 2}}}",
+                "{' ': 1, '  ': {' ': 2}}", "{null: 1, true: 2, 1.5: 3, 2020-01-01: d, 7: e}", "{~: {~: x}}", "{'': [1, 2], b: ['']}",
+                "{'': {'': {'': leaf}}}", "{? [1, 2] : seqkey, a: 1}", "{'': &E e, b: *E}"]
+
 SEEDS = [
     ("[a]", "[-2]"), ("[a]", "/-2"), ("[a, b]", "[1:9]"), ("{a: [x]}", "a[0:0]"),
     ("[{a: 1}, null]", "[.=x]"), ("[a, {b: 1}]", "[unique()]"), ("[a, b]", "[.=~/(/]"),
@@ -161,8 +165,12 @@ def run_shard(ctx):
                 evaluate(ctx, "[x%d 1 ]x%d" % (depth, depth), data, p)
     done = 0
     while done < total:
-        if rng.random() < 0.15:
+        x = rng.random()
+        if x < 0.15:
             text = rng.choice(gd.HOSTILE)
+        elif x < 0.2:
+            text = rng.choice(ODD_KEY_DOCS)          # empty-string keys and members, blank keys, keys of every scalar type
+            ctx.counters["docs_with_odd_keys"] = ctx.counters.get("docs_with_odd_keys", 0) + 1
         else:
             text, _ = gd.gen_doc(rng)
         try:
@@ -170,7 +178,20 @@ def run_shard(ctx):
         except yp.LoadError:
             ctx.count("doc_rejected_by_loader")
             continue
-        vocab = gp.doc_vocab(data)
+        vocab = gp.doc_vocab(data)          # (taken before any tagging: the harness itself must not depend on tagged nodes)
+        if rng.random() < 0.04:
+            # a document whose scalars were tagged through the library (Processor.tag_nodes / yaml-set --tag)
+            tpath = rng.choice(["**", "/*", "*[.=~/./]", "**[.>0]"])
+            try:
+                Processor(LOG, data).tag_nodes(tpath, "!vf")
+                text = text + "  # then tag_nodes(%r, '!vf')" % tpath
+                ctx.counters["docs_tagged_through_the_library"] = ctx.counters.get("docs_tagged_through_the_library", 0) + 1
+            except YAMLPathException:
+                pass
+            except Exception as e:
+                # (tagging is an edit, not a query: how it fails - e.g. on a set member - is outside this property)
+                ctx.count("tag_nodes_raised/" + type(e).__name__)
+                continue
         pg = gp.PathGen(rng, vocab, keywords=True)
         for _ in range(rng.choice([4, 8, 12])):
             segs = pg.path()
